@@ -42,8 +42,11 @@ VarAlias(nm, t, cb)   == [nm |-> nm, al |-> TRUE, t |-> <<t>>, fs |-> <<>>, cb |
 (* before the item (cb) or after a field up to the end of the line (cr).    *)
 
 NL == K("nl", "\n")
-CmtToks(lines) == Flat([i \in 1..Len(lines) |-> <<K("cmt", lines[i]), NL>>])
-Before(cb) == IF cb = <<>> THEN <<>> ELSE <<NL>> \o CmtToks(cb)
+(* the lines of a comment after the first are indented in every layout but the minimal one (the parser keeps  *)
+(* the indentation inside the comment text; the neutral AST and the formatter trim every line)                *)
+CmtToks(lines, lay) == Flat([i \in 1..Len(lines) |-> (IF i > 1 /\ lay.sep # "min" THEN <<K("TAB", "\t"), K("SP", " ")>> ELSE <<>>)
+                                                       \o <<K("cmt", lines[i]), NL>>])
+Before(cb, lay) == IF cb = <<>> THEN <<>> ELSE <<NL>> \o CmtToks(cb, lay)
 Right(cr)  == IF cr = "" THEN <<>> ELSE <<K("SP", " "), K("cmt", cr), NL>>
 
 Name2Tok(ns, nm) == IF ns = "" /\ nm = "Type" THEN K("Type", "Type") ELSE NameTok(ns, nm)
@@ -59,13 +62,13 @@ Type2Toks(t, lay) ==
 
 FieldName2Tok(f) == IF f.ign THEN (IF f.n = "_" THEN K("_", "_") ELSE K("dep", f.n)) ELSE VarTok(f.n)
 Field2Toks(f, lay) ==
-  Before(f.cb)
+  Before(f.cb, lay)
   \o (IF f.n # "" THEN <<FieldName2Tok(f)>> \o (IF f.opt THEN <<P("?")>> ELSE <<>>) \o <<P(":")>> ELSE <<>>)
   \o Type2Toks(f.t, lay) \o Right(f.cr)
 Fields2Toks(fs, lay) == Flat([i \in 1..Len(fs) |-> Field2Toks(fs[i], lay)])
 
 Variant2Toks(v, lay, withBar) ==
-  Before(v.cb) \o (IF withBar THEN <<P("|")>> ELSE <<>>)
+  Before(v.cb, lay) \o (IF withBar THEN <<P("|")>> ELSE <<>>)
   \o <<IF v.nm = "Type" THEN K("Type", "Type") ELSE VarTok(v.nm)>>
   \o (IF v.al THEN Type2Toks(v.t[1], lay) ELSE Fields2Toks(v.fs, lay))
 Def2Toks(d, lay) ==
@@ -75,7 +78,7 @@ Def2Toks(d, lay) ==
 
 (* the result of a function that is a single anonymous field is written as a bare type reference *)
 Comb2Toks(c, lay) ==
-  CmtToks(c.cb)
+  CmtToks(c.cb, lay)
   \o [i \in 1..Len(c.an) |-> K("ann", "@" \o c.an[i])]
   \o <<NameTok(c.ns, c.nm)>>
   \o (IF c.mg # "" THEN <<K("tag", "#" \o c.mg)>> ELSE <<>>)
@@ -93,7 +96,7 @@ File2Toks(cs, lay) == Flat([i \in 1..Len(cs) |-> Comb2Toks(cs[i], lay) \o (IF i 
 
 WordEnd2   == WordEnd \cup {"dep", "Type", "_"}
 WordStart2 == WordStart \cup {"dep", "Type", "_"}
-Fixed2(t) == t.k \in {"nl", "cmt", "SP"}            \* layout tokens that belong to the rendering itself
+Fixed2(t) == t.k \in {"nl", "cmt", "SP", "TAB"}            \* layout tokens that belong to the rendering itself
 NeedSep2(a, b) == a.k \in WordEnd2 /\ b.k \in WordStart2
 (* no separator may follow the colon of a template argument declaration (the category is read without skipping *)
 (* blanks); a colon is followed by # or Type only there                                                        *)
